@@ -32,4 +32,76 @@ def DataFrame_group_by_decorators : List String := []
 /-- the signature of dataiter/data_frame.py: DataFrame.group_by: parameters in order, with the source text of their defaults -/
 def DataFrame_group_by_signature : List String := ["self", "*colnames"]
 
+/-- dataiter/data_frame.py: DataFrame.aggregate (sha256 of the function source: b899e50be4539025) -/
+def DataFrame_aggregate (truth : Term → Bool) : Out :=
+  let group_colnames' : Term := (Term.app "._group_colnames" [(Term.sym "self")]);
+  let data' : Term := (Term.app ".sort" [(Term.sym "self"), (Term.app "=**" [(Term.app "dict.fromkeys" [group_colnames', (Term.int (1 : Int))])])]);
+  let attr0_1' : Term := (Term.app "np.arange" [(Term.app ".nrow" [data'])]);
+  let eff0 : Term := (Term.app "setattr" [data', (Term.sym "_index_"), attr0_1']);
+  let stat' : Term := (Term.app ".select" [(Term.app ".unique" [data', (Term.app "*" [group_colnames'])]), (Term.sym "'_index_'"), (Term.app "*" [group_colnames'])]);
+  let indices' : Term := (if truth (Term.app "Gt" [(Term.app ".nrow" [stat']), (Term.int (0 : Int))]) then (Term.app "np.split" [attr0_1', (Term.app "getitem" [(Term.app "._index_" [stat']), (Term.slice (some (1 : Int)) none)])]) else (Term.app "list" []));
+  let group_aware' : Term := (Term.app "ListComp" [(Term.app "getattr" [(Term.sym "x"), (Term.sym "'group_aware'"), (Term.sym "False")]), (Term.app "in" [(Term.sym "x"), (Term.app ".values" [(Term.sym "colname_function_pairs")]), (Term.app "if" [])])]);
+  if truth (Term.app "any" [group_aware']) then
+    let groups' : Term := (Term.app "Vector.fast" [(Term.app "range" [(Term.app "len" [indices'])]), (Term.sym "int")]);
+    let n' : Term := (Term.app "Vector.fast" [(Term.app "map" [(Term.sym "len"), indices']), (Term.sym "int")]);
+    let attr1_2' : Term := (Term.app "np.repeat" [groups', n']);
+    let eff1 : Term := (Term.app "setattr" [data', (Term.sym "_group_"), attr1_2']);
+    let slices' : Term := (Term.sym "None");
+    let eff2 : Term := (Term.app "for" [(Term.app "tuple" [(Term.sym "colname"), (Term.sym "function")]), (Term.app ".items" [(Term.sym "colname_function_pairs")]), (Term.app "block" [(Term.app "if" [(Term.app "getattr" [(Term.sym "function"), (Term.sym "'group_aware'"), (Term.sym "False")]), (Term.app "block" [(Term.app "assign" [(Term.sym "column"), (Term.app "call" [(Term.sym "function"), data'])]), (Term.app "assign" [(Term.sym "default"), (Term.app ".default" [(Term.sym "function")])]), (Term.app "for" [(Term.sym "i"), (Term.app "range" [(Term.app "len" [(Term.sym "column")])]), (Term.app "block" [(Term.app "if" [(Term.app "Is" [(Term.app "getitem" [(Term.sym "column"), (Term.sym "i")]), (Term.sym "None")]), (Term.app "block" [(Term.app "store" [(Term.app "getitem" [(Term.sym "column"), (Term.sym "i")]), (Term.sym "default")])]), (Term.app "block" [])])])]), (Term.app "assert" [(Term.app "Eq" [(Term.app "len" [(Term.sym "column")]), (Term.app ".nrow" [stat'])])]), (Term.app "assign" [(Term.sym "column"), (Term.app "DataFrameColumn.fast" [(Term.sym "column")])]), (Term.app "store" [(Term.app "getitem" [stat', (Term.sym "colname")]), (Term.sym "column")])]), (Term.app "block" [(Term.app "if" [(Term.app "Is" [(Term.sym "slices"), (Term.sym "None")]), (Term.app "block" [(Term.app "assign" [(Term.sym "slices"), (Term.app "ListComp" [(Term.app "._view_rows" [data', (Term.sym "x")]), (Term.app "in" [(Term.sym "x"), indices', (Term.app "if" [])])])])]), (Term.app "block" [])]), (Term.app "store" [(Term.app "getitem" [stat', (Term.sym "colname")]), (Term.app "ListComp" [(Term.app "call" [(Term.sym "function"), (Term.sym "x")]), (Term.app "in" [(Term.sym "x"), (Term.sym "slices"), (Term.app "if" [])])])])])])]), (Term.app "init" [(Term.sym "slices"), slices'])]);
+    let column' : Term := (Term.app "value-after-loop" [(Term.sym "column"), eff2]);
+    let default' : Term := (Term.app "value-after-loop" [(Term.sym "default"), eff2]);
+    let slices' : Term := (Term.app "value-after-loop" [(Term.sym "slices"), eff2]);
+    Out.ret [eff0, eff1, eff2] (Term.app ".unselect" [stat', (Term.sym "'_index_'"), (Term.sym "'_group_'")])
+  else
+    let slices' : Term := (Term.sym "None");
+    let eff1 : Term := (Term.app "for" [(Term.app "tuple" [(Term.sym "colname"), (Term.sym "function")]), (Term.app ".items" [(Term.sym "colname_function_pairs")]), (Term.app "block" [(Term.app "if" [(Term.app "getattr" [(Term.sym "function"), (Term.sym "'group_aware'"), (Term.sym "False")]), (Term.app "block" [(Term.app "assign" [(Term.sym "column"), (Term.app "call" [(Term.sym "function"), data'])]), (Term.app "assign" [(Term.sym "default"), (Term.app ".default" [(Term.sym "function")])]), (Term.app "for" [(Term.sym "i"), (Term.app "range" [(Term.app "len" [(Term.sym "column")])]), (Term.app "block" [(Term.app "if" [(Term.app "Is" [(Term.app "getitem" [(Term.sym "column"), (Term.sym "i")]), (Term.sym "None")]), (Term.app "block" [(Term.app "store" [(Term.app "getitem" [(Term.sym "column"), (Term.sym "i")]), (Term.sym "default")])]), (Term.app "block" [])])])]), (Term.app "assert" [(Term.app "Eq" [(Term.app "len" [(Term.sym "column")]), (Term.app ".nrow" [stat'])])]), (Term.app "assign" [(Term.sym "column"), (Term.app "DataFrameColumn.fast" [(Term.sym "column")])]), (Term.app "store" [(Term.app "getitem" [stat', (Term.sym "colname")]), (Term.sym "column")])]), (Term.app "block" [(Term.app "if" [(Term.app "Is" [(Term.sym "slices"), (Term.sym "None")]), (Term.app "block" [(Term.app "assign" [(Term.sym "slices"), (Term.app "ListComp" [(Term.app "._view_rows" [data', (Term.sym "x")]), (Term.app "in" [(Term.sym "x"), indices', (Term.app "if" [])])])])]), (Term.app "block" [])]), (Term.app "store" [(Term.app "getitem" [stat', (Term.sym "colname")]), (Term.app "ListComp" [(Term.app "call" [(Term.sym "function"), (Term.sym "x")]), (Term.app "in" [(Term.sym "x"), (Term.sym "slices"), (Term.app "if" [])])])])])])]), (Term.app "init" [(Term.sym "slices"), slices'])]);
+    let column' : Term := (Term.app "value-after-loop" [(Term.sym "column"), eff1]);
+    let default' : Term := (Term.app "value-after-loop" [(Term.sym "default"), eff1]);
+    let slices' : Term := (Term.app "value-after-loop" [(Term.sym "slices"), eff1]);
+    Out.ret [eff0, eff1] (Term.app ".unselect" [stat', (Term.sym "'_index_'"), (Term.sym "'_group_'")])
+
+/-- the decorators of dataiter/data_frame.py: DataFrame.aggregate, outermost first -/
+def DataFrame_aggregate_decorators : List String := []
+
+/-- the signature of dataiter/data_frame.py: DataFrame.aggregate: parameters in order, with the source text of their defaults -/
+def DataFrame_aggregate_signature : List String := ["self", "**colname_function_pairs"]
+
+/-- dataiter/data_frame.py: DataFrame.split (sha256 of the function source: aa9db7543e433bf3) -/
+def DataFrame_split (truth : Term → Bool) : Out :=
+  let data' : Term := (Term.app ".select" [(Term.sym "self"), (Term.app "*" [(Term.sym "by")])]);
+  let attr0_1' : Term := (Term.app "np.arange" [(Term.app ".nrow" [data'])]);
+  let eff0 : Term := (Term.app "setattr" [data', (Term.sym "_index_"), attr0_1']);
+  let data' : Term := (Term.app ".sort" [data', (Term.app "=**" [(Term.app "dict.fromkeys" [(Term.sym "by"), (Term.int (1 : Int))])])]);
+  let attr1_1' : Term := (Term.app "np.arange" [(Term.app ".nrow" [data'])]);
+  let eff1 : Term := (Term.app "setattr" [data', (Term.sym "_sorted_index_"), attr1_1']);
+  let stat' : Term := (Term.app ".unique" [data', (Term.app "*" [(Term.sym "by")])]);
+  Out.ret [eff0, eff1] (Term.app "np.split" [attr0_1', (Term.app "getitem" [(Term.app "._sorted_index_" [stat']), (Term.slice (some (1 : Int)) none)])])
+
+/-- the decorators of dataiter/data_frame.py: DataFrame.split, outermost first -/
+def DataFrame_split_decorators : List String := []
+
+/-- the signature of dataiter/data_frame.py: DataFrame.split: parameters in order, with the source text of their defaults -/
+def DataFrame_split_signature : List String := ["self", "*by"]
+
+/-- dataiter/data_frame.py: DataFrame.modify (sha256 of the function source: a907c661dc04b66c) -/
+def DataFrame_modify (truth : Term → Bool) : Out :=
+  let eff0 : Term := (Term.app "for" [(Term.app "tuple" [(Term.sym "colname"), (Term.sym "column")]), (Term.app ".items" [(Term.sym "self")]), (Term.app "block" [(Term.app "yield" [(Term.app "tuple" [(Term.sym "colname"), (Term.app ".copy" [(Term.sym "column")])])])])]);
+  if truth (Term.app "._group_colnames" [(Term.sym "self")]) then
+    let slices' : Term := (Term.app ".split" [(Term.sym "self"), (Term.app "*" [(Term.app "._group_colnames" [(Term.sym "self")])])]);
+    let restore_indices' : Term := (Term.app "np.argsort" [(Term.app "np.concatenate" [slices'])]);
+    let slices' : Term := (Term.app "ListComp" [(Term.app "._view_rows" [(Term.sym "self"), (Term.sym "x")]), (Term.app "in" [(Term.sym "x"), slices', (Term.app "if" [])])]);
+    let eff1 : Term := (Term.app "for" [(Term.app "tuple" [(Term.sym "colname"), (Term.sym "function")]), (Term.app ".items" [(Term.sym "colname_value_pairs")]), (Term.app "block" [(Term.app "if" [(Term.app "not" [(Term.app "callable" [(Term.sym "function")])]), (Term.app "block" [(Term.app "raise" [(Term.sym "ValueError")])]), (Term.app "block" [])]), (Term.app "assign" [(Term.sym "column"), (Term.app "ListComp" [(Term.app "DataFrameColumn" [(Term.app "call" [(Term.sym "function"), (Term.sym "x")]), (Term.app "=nrow" [(Term.app ".nrow" [(Term.sym "x")])])]), (Term.app "in" [(Term.sym "x"), slices', (Term.app "if" [])])])]), (Term.app "yield" [(Term.app "tuple" [(Term.sym "colname"), (Term.app "getitem" [(Term.app "np.concatenate" [(Term.sym "column")]), restore_indices'])])])])]);
+    let column' : Term := (Term.app "value-after-loop" [(Term.sym "column"), eff1]);
+    Out.fall [eff0, eff1]
+  else
+    let eff1 : Term := (Term.app "for" [(Term.app "tuple" [(Term.sym "colname"), (Term.sym "value")]), (Term.app ".items" [(Term.sym "colname_value_pairs")]), (Term.app "block" [(Term.app "assign" [(Term.sym "value"), (Term.app "ifexp" [(Term.app "callable" [(Term.sym "value")]), (Term.app "call" [(Term.sym "value"), (Term.sym "self")]), (Term.sym "value")])]), (Term.app "yield" [(Term.app "tuple" [(Term.sym "colname"), (Term.app ".copy" [(Term.app "._reconcile_column" [(Term.sym "self"), (Term.sym "value")])])])])])]);
+    let value' : Term := (Term.app "value-after-loop" [(Term.sym "value"), eff1]);
+    Out.fall [eff0, eff1]
+
+/-- the decorators of dataiter/data_frame.py: DataFrame.modify, outermost first -/
+def DataFrame_modify_decorators : List String := ["deco.new_from_generator"]
+
+/-- the signature of dataiter/data_frame.py: DataFrame.modify: parameters in order, with the source text of their defaults -/
+def DataFrame_modify_signature : List String := ["self", "**colname_value_pairs"]
+
 end DI.Gen
